@@ -2,6 +2,7 @@ use crate::common::Ctx;
 pub mod c15;
 pub mod c15_text;
 pub mod c15_bin;
+pub mod c15_codec;
 pub mod c07;
 pub mod c07_enc;
 pub mod c08;
